@@ -487,7 +487,11 @@ func (p *Project) WithSelectedServices(names []string, options ...DependencyOpti
 
 	// Disable all services which are not explicit target or dependencies
 	enabled := Services{}
-	for name, s := range newProject.Services {
+	// visit services in a fixed order: disabling a service strips the dependencies other *enabled*
+	// services have on it, so the result would otherwise depend on map iteration order
+	services := newProject.Services
+	for _, name := range utils.MapKeys(services) {
+		s := services[name]
 		if _, ok := set[name]; ok {
 			// remove all dependencies but those implied by explicitly selected services
 			dependencies := s.DependsOn
